@@ -1,13 +1,22 @@
 pub mod opcmp;
 pub mod c05;
 pub mod c06;
+#[cfg(feature = "jit")]
+pub mod pair;
+#[cfg(feature = "jit")]
+pub mod c01;
 
 use crate::{crash_is_harness_failure, Monitor};
 
 pub fn registry() -> Vec<Monitor> {
   let _ = crash_is_harness_failure;
-  vec![
+  let mut v = vec![
     Monitor { name: "c05", run: c05::run, resumable: true, on_crash: c05::on_crash },
     Monitor { name: "c06", run: c06::run, resumable: true, on_crash: c06::on_crash },
-  ]
+  ];
+  #[cfg(feature = "jit")]
+  {
+    v.push(Monitor { name: "c01", run: c01::run, resumable: true, on_crash: c01::on_crash });
+  }
+  v
 }
